@@ -28,11 +28,9 @@ pub fn parse_systems(doc: &roxmltree::Document) -> (Vec<String>, Vec<VypSystem>)
     let gt_systems = gt_sys::parse_systems(doc);
     // let horarios = todo!();
 
-    // TODO: eliminar
-    println!("Sistemas  GT:\n{:#?}", gt_systems);
-
-    // TODO: eliminar
-    println!("Sistemas VyP:\n{:#?}", sistemas);
+    // La salida estándar está reservada a los programas (hulc2model escribe en ella el modelo JSON)
+    log::debug!("Sistemas  GT:\n{:#?}", gt_systems);
+    log::debug!("Sistemas VyP:\n{:#?}", sistemas);
 
     // TODO: completar sistemas GT
     (factores_correccion_sistemas, sistemas)
